@@ -362,8 +362,12 @@ func (cc *connectUnaryClientConn) Send(msg any) error {
 	if err := cc.marshaler.Marshal(msg); err != nil {
 		// The request body is the message. If we end the request cleanly now,
 		// the handler reads an empty body - a valid zero message - and runs
-		// with input nobody sent. Break the request instead.
-		cc.duplexCall.SetError(err)
+		// with input nobody sent. Break the request instead. (Not when the
+		// write failed with io.EOF: then the server has already answered, and
+		// Receive should report that answer.)
+		if !errors.Is(err, io.EOF) {
+			cc.duplexCall.SetError(err)
+		}
 		return err
 	}
 	return nil // must be a literal nil: nil *Error is a non-nil error
